@@ -46,6 +46,13 @@ def _literal(lit):
     neg = False
     if z3.is_not(lit):
         neg, lit = True, lit.arg(0)
+    if z3.is_or(lit):
+        # a disjunction of regular literals about the same term is their union
+        subs = [_literal(c) for c in lit.children()]
+        if subs and all(x is not None for x in subs) and all(x[0].eq(subs[0][0]) for x in subs):
+            rx = z3.Union(*[x[1] for x in subs]) if len(subs) > 1 else subs[0][1]
+            return subs[0][0], (z3.Complement(rx) if neg else rx)
+        return None
     subj = rx = None
     k = lit.decl().kind() if z3.is_app(lit) else None
     if k == z3.Z3_OP_SEQ_IN_RE:
@@ -134,12 +141,25 @@ def _empty(eng, lang, timeout_ms):
 
 def _hosts(eng, v):
     """Decomposed strings (targets of the engine's structural splits) in which variable v occurs exactly once."""
-    out = []
-    for var, _ in eng.subst:
-        full = eng.norm(var)
+    out, seen = [], set()
+
+    def consider(full):
+        if full.get_id() in seen:
+            return
+        seen.add(full.get_id())
         parts = flatten(full)
         if sum(1 for p in parts if p.eq(v)) == 1 and len(parts) > 1:
             out.append(full)
+    for var, _ in eng.subst:
+        consider(eng.norm(var))
+    # concatenations that the path condition constrains regularly (e.g. Contains(a ++ v ++ b, "const"))
+    lits = []
+    for c in eng.pc:
+        _conjuncts(c, lits)
+    for lit in lits:
+        r = _literal(lit)
+        if r is not None and not z3.is_const(r[0]):
+            consider(eng.norm(r[0]))
     return out
 
 
